@@ -242,7 +242,7 @@ def run_worker(ctx, cases, worker="kworker.py", scratch=None, env=None, timeout=
             if k < len(cases) and results[k] is None:
                 results[k] = {"i": k, "crash": r.returncode, "stderr": (r.stderr or "")[-1500:]}
             start = k + 1
-            if crashes > 600:
+            if crashes > 20000:
                 break
         else:
             start = len(cases)
